@@ -29,6 +29,20 @@ Theorem C03_sunmd5_coin_is_xor_of_digest_bits : forall d i, Forall byte_ok d ->
                   (Z.testbit (le_num d) ((Z.land (Z.shiftr (gather d 8) (bit d (u32 (i + 64)))) 127) mod 128)).
 Proof. exact coin_is_xor_of_digest_bits. Qed.
 
+
+(* the selectors the round function builds are below 128 already, so the statements hold without the reduction *)
+Theorem C03_sunmd5_ind7_range : forall d j, 0 <= ind7 d j < 128.
+Proof. exact ind7_range. Qed.
+
+Theorem C03_sunmd5_gather_bit_exact : forall d base j, Forall byte_ok d -> 0 <= j < 8 ->
+  Z.testbit (gather d base) j = Z.testbit (le_num d) (ind7 d (base + j)).
+Proof. exact gather_bit_exact. Qed.
+
+Theorem C03_sunmd5_coin_exact : forall d i, Forall byte_ok d ->
+  coin d i = xorb (Z.testbit (le_num d) (Z.land (Z.shiftr (gather d 0) (bit d i)) 127))
+                  (Z.testbit (le_num d) (Z.land (Z.shiftr (gather d 8) (bit d (u32 (i + 64)))) 127)).
+Proof. exact coin_exact. Qed.
+
 (* non-vacuity: a concrete 16-byte digest; selector 130 wraps to bit 2 of byte 0, selector 127 is the top bit of byte 15 *)
 Example C03_sunmd5_bit_example :
   let d := [5; 0; 0; 0; 0; 0; 0; 0; 0; 0; 0; 0; 0; 0; 0; 128] in
